@@ -329,6 +329,46 @@ def _c17_cleaner(src: Src) -> str:
             f"def cleanerReplace : List (String × String) := [{', '.join('(' + lean_str(a) + ', ' + lean_str(b) + ')' for a, b in chain)}]")
 
 
+# ---- generic: pin the (docstring-free) source of a function -----------------------------------
+
+
+def pinned_source(src: Src, mod: str, qual: str) -> list[str]:
+    """The function body, statement by statement, normalised by ast.unparse (docstrings and logging dropped)."""
+    fn = src.func(mod, qual)
+    return [ast.unparse(s) for s in fn.body if not is_docstring(s) and not is_logging(s)]
+
+
+def lean_str_list(xs: list[str]) -> str:
+    return "[" + ", ".join(lean_str(x) for x in xs) + "]"
+
+
+# ---- C16 -----------------------------------------------------------------------------------
+
+
+@item("C16", "digitString", "def digitStringSrc : List String := [] -- extraction unavailable")
+def _c16_digit_string(src: Src) -> str:
+    return f"def digitStringSrc : List String := {lean_str_list(pinned_source(src, 'schema_instance', 'digit_string'))}"
+
+
+@item("C16", "decimalPlaces", "def decimalPlacesSrc : List String := [] -- extraction unavailable")
+def _c16_decimal_places(src: Src) -> str:
+    return f"def decimalPlacesSrc : List String := {lean_str_list(pinned_source(src, 'schema_instance', 'decimal_places'))}"
+
+
+@item("C16", "conversion", "def conversionTable : List (String × String) := [] -- extraction unavailable")
+def _c16_conversion(src: Src) -> str:
+    v = src.module_assign("schema_instance", "CONVERSION")
+    if not isinstance(v, ast.Dict):
+        raise Unavailable("CONVERSION is not a dict literal")
+    rows = []
+    for k, val in zip(v.keys, v.values):
+        if not isinstance(k, ast.Constant) or not (k.value is None or isinstance(k.value, str)):
+            raise Unavailable(f"CONVERSION key {ast.unparse(k)}")
+        rows.append(("None" if k.value is None else k.value, ast.unparse(val)))
+    body = ", ".join(f"({lean_str(a)}, {lean_str(b)})" for a, b in rows)
+    return f"def conversionTable : List (String × String) := [{body}]"
+
+
 # ------------------------------------------------------------------------------------------
 # driver
 # ------------------------------------------------------------------------------------------
